@@ -73,28 +73,45 @@ def _dfa_compare(ctx, name, step, accept, reject, nstates, loc):
            (f"state {diff[0]} on byte 0x{diff[1]:02x} -> {diff[2]}: {diff[3]}" if diff else ""), loc)
 
 
+TABLE = "UTF8VALIDATOR_DFA_S"
+
+
 def _py_roles(ctx, fn):
-    """Roles in a pure-Python DFA driver, found by structure (not by local names): the step statement
-    `<state> = TABLE[256 + ...]`, the state variable, the byte expression (the argument of the TABLE[...] class lookup,
+    """Roles in a pure-Python DFA driver, found by structure (not by local names): the step statement `<state> = TABLE[256 + ...]`
+    (the table possibly through a local alias), the state variable, the byte expression (the argument of the TABLE[...] class lookup,
     inside the step or through a local holding the class)."""
-    steps = [s_ for s_ in walk_no_defs(fn.node) if isinstance(s_, ast.Assign) and isinstance(s_.value, ast.Subscript) and norm.text(s_.value.value) == "UTF8VALIDATOR_DFA_S"
-             and any(isinstance(x, ast.Constant) and x.value == 256 for x in ast.walk(s_.value.slice))]
+    from .common import local_canon, _Subst
+    import copy
+    canon = local_canon(fn)
+
+    def expand(e):
+        return _Subst(canon).visit(ast.Expression(body=copy.deepcopy(e))).body
+    steps = []
+    for s_ in walk_no_defs(fn.node):
+        if isinstance(s_, ast.Assign) and len(s_.targets) == 1 and isinstance(s_.value, ast.Subscript):
+            v = expand(s_.value)
+            if isinstance(v, ast.Subscript) and norm.text(v.value) == TABLE and any(isinstance(x, ast.Constant) and x.value == 256 for x in ast.walk(v.slice)):
+                steps.append((s_, v))
     ctx.require(len(steps) == 1, f"{fn.qualname}: DFA step `state = TABLE[256 + ...]` not found")
-    step = steps[0]
+    step, stepx = steps[0]
     statevar = norm.text(step.targets[0])
-    inner = [x for x in ast.walk(step.value.slice) if isinstance(x, ast.Subscript) and norm.text(x.value) == "UTF8VALIDATOR_DFA_S"]
+    inner = [x for x in ast.walk(stepx.slice) if isinstance(x, ast.Subscript) and norm.text(x.value) == TABLE]
     aliases = {}
     byte = None
+    byte_ast = None
     if inner:
         byte = norm.text(inner[0].slice)
+        byte_ast = inner[0].slice
     else:
         for s_ in walk_no_defs(fn.node):
-            if isinstance(s_, ast.Assign) and isinstance(s_.targets[0], ast.Name) and isinstance(s_.value, ast.Subscript) and norm.text(s_.value.value) == "UTF8VALIDATOR_DFA_S" \
-                    and s_ is not step and any(isinstance(x, ast.Name) and x.id == s_.targets[0].id for x in ast.walk(step.value.slice)):
-                aliases[s_.targets[0].id] = s_
-                byte = norm.text(s_.value.slice)
+            if isinstance(s_, ast.Assign) and isinstance(s_.targets[0], ast.Name) and isinstance(s_.value, ast.Subscript) and s_ is not step:
+                v = expand(s_.value)
+                if isinstance(v, ast.Subscript) and norm.text(v.value) == TABLE and any(isinstance(x, ast.Name) and x.id == s_.targets[0].id for x in ast.walk(stepx.slice)):
+                    aliases[s_.targets[0].id] = s_
+                    byte = norm.text(v.slice)
+                    byte_ast = v.slice
     ctx.require(byte is not None, f"{fn.qualname}: byte class lookup not found in the DFA step")
-    return {"step": step, "statevar": statevar, "byte": byte, "class_aliases": aliases}
+    return {"step": step, "step_index": stepx.slice, "statevar": statevar, "byte": byte, "byte_ast": byte_ast, "class_aliases": aliases}
 
 
 def rule_python_dfa(ctx):
@@ -117,9 +134,9 @@ def rule_python_dfa(ctx):
         ctx.analysed(fn)
         roles = _py_roles(ctx, fn)
         steps, statevar = [roles["step"]], roles["statevar"]
-        idx = steps[0].value.slice
+        idx = roles["step_index"]
         S, B = np.meshgrid(np.arange(nstates), np.arange(256), indexing="ij")
-        env = {statevar: S, roles["byte"]: B, "UTF8VALIDATOR_DFA_S": lambda i: Ta[i]}
+        env = {statevar: S, roles["byte"]: B, TABLE: lambda i: Ta[i]}
         for nm in roles["class_aliases"]:
             env[nm] = Ta[B]  # a local holding TABLE[byte]: the class of the byte
         I = _eval_index(idx, env)
@@ -134,62 +151,82 @@ def rule_python_dfa(ctx):
 
 
 def rule_python_bookkeeping(ctx):
+    """validate() decided cell-wise.  C09.1 proves that the step statement computes the RFC 3629 automaton; the loop around it observes
+    octets only through that step.  The step is therefore replaced by the automaton's quotient on four representative octets
+    (A: ASCII, L: lead of a 2-octet sequence, C: continuation, X: never valid) with the states ACCEPT, REJECT and one "inside a code
+    point" state, and validate() is evaluated on every chunk over {A, L, C, X} of length 0..3, every entry state and two entry offsets;
+    the returned quad and the stored state/offset are compared with the specification (fold the step, stop at the first reject)."""
+    import copy
+    import itertools
+    from ..core.tiny import Tiny, Sym, TinyRaise
     ctx.rule("C09.4-index-bookkeeping-python")
-    an = get_analysis(ctx)
     m, T, ACC, REJ = _py_table(ctx)
     fn = m.classes["Utf8Validator"].methods["validate"]
-    g, mf, res = an.get(fn)
+    ctx.analysed(fn)
     roles = _py_roles(ctx, fn)
     SV = roles["statevar"]
-    inner = [x for x in ast.walk(roles["step"].value.slice) if isinstance(x, ast.Subscript) and norm.text(x.value) == "UTF8VALIDATOR_DFA_S"]
-    ctx.require(bool(inner) and isinstance(inner[0].slice, ast.Subscript) and isinstance(inner[0].slice.value, ast.Name) and isinstance(inner[0].slice.slice, ast.Name),
-                "validate: byte is not read as <chunk>[<cursor>]")
-    CH, CUR = inner[0].slice.value.id, inner[0].slice.slice.id
-    ctx.ob("the validated octets are the chunk passed in", CH == fn.params()[1], f"reads {CH}", fn.loc())
-    from ..core.flow import local_assignments
-    LV = [st_.targets[0].id for st_ in walk_no_defs(fn.node) if isinstance(st_, ast.Assign) and isinstance(st_.targets[0], ast.Name) and norm.text(st_.value) == f"len({CH})"]
-    ctx.require(len(LV) == 1, "validate: length variable (len(chunk)) not found")
-    LV = LV[0]
-    rets = [n for n in g.stmt_nodes() if n.kind == "stmt" and isinstance(n.ast, ast.Return)]
-    ctx.require(len(rets) == 2, "validate: expected a reject return and a normal return")
-    ld = [n for n in g.stmt_nodes() if n.kind == "stmt" and isinstance(n.ast, ast.Assign) and norm.text(n.ast.targets[0]) == SV and norm.text(n.ast.value) == "self._state"]
-    ctx.ob("state loaded from the object at entry (incremental)", len(ld) == 1, "state = self._state missing", fn.loc())
-    inc = [n for n in g.stmt_nodes() if n.kind == "stmt" and ((isinstance(n.ast, ast.AugAssign) and norm.text(n.ast.target) == CUR and isinstance(n.ast.op, ast.Add) and norm.text(n.ast.value) == "1")
-                                                              or (isinstance(n.ast, ast.Assign) and norm.text(n.ast.targets[0]) == CUR and norm.text(n.ast.value) in (f"{CUR} + 1", f"1 + {CUR}")))]
-    ctx.require(len(inc) == 1, "validate: cursor increment by one not found")
-    step = [n for n in g.stmt_nodes() if n.ast is roles["step"]]
-    rejfact = ("eq", SV, ("c", REJ), True)
+    ctx.ob("the validated octets are the chunk passed in", any(isinstance(x, ast.Name) and x.id == fn.params()[1] for x in ast.walk(roles["byte_ast"])),
+           f"reads {roles['byte']}", fn.loc())
+    # representative octets, taken from the automaton itself (real table): their classes and the quotient's transitions
+    Ta = T
 
-    def is_rej_value(e):
-        ok_, v_ = ctx.program.try_const(e, fn.module, fn.cls)
-        return norm.text(e) == SV or (ok_ and v_ == REJ)
-    for r in rets:
-        vals = [norm.text(e) for e in r.ast.value.elts] if isinstance(r.ast.value, ast.Tuple) else []
-        facts = mf.at(r)
-        if rejfact in facts:
-            ok = vals == ["False", "False", CUR, "self._index"]
-            ctx.ob("reject: returns (False, False, i, total)", ok, f"returns {vals}", fn.loc(r.ast))
-            ctx.ob("reject: position is the offending byte (cursor not yet advanced)", not g.path_exists(step[0], r, avoid=lambda x: False) or
-                   not (g.path_exists(step[0], inc[0], avoid=lambda x: x is r) and g.path_exists(inc[0], r, avoid=lambda x: x is step[0])),
-                   "cursor incremented before the position is reported", fn.loc(r.ast))
-            st = [n for n in g.stmt_nodes() if n.kind == "stmt" and isinstance(n.ast, ast.Assign) and norm.text(n.ast.targets[0]) == "self._state" and
-                  rejfact in (mf.at(n) or ())]
-            ix = [n for n in g.stmt_nodes() if n.kind == "stmt" and isinstance(n.ast, ast.AugAssign) and norm.text(n.ast.target) == "self._index" and
-                  rejfact in (mf.at(n) or ())]
-            ctx.ob("reject: state stored", len(st) == 1 and is_rej_value(st[0].ast.value) and g.always_preceded_by(r, lambda x: x is st[0]), "reject state not persisted", fn.loc(r.ast))
-            ctx.ob("reject: total index advanced by the offending position", len(ix) == 1 and norm.text(ix[0].ast.value) == CUR and g.always_preceded_by(r, lambda x: x is ix[0]), "total index update changed", fn.loc(r.ast))
-        else:
-            acc_txt = {f"{SV} == UTF8_ACCEPT", f"UTF8_ACCEPT == {SV}"}
-            ok = len(vals) == 4 and vals[0] == "True" and vals[1] in acc_txt and vals[2] in (LV, f"len({CH})") and vals[3] == "self._index"
-            ctx.ob("normal exit: returns (True, state == ACCEPT, len, total)", ok, f"returns {vals}", fn.loc(r.ast))
-            st = [n for n in g.stmt_nodes() if n.kind == "stmt" and isinstance(n.ast, ast.Assign) and norm.text(n.ast.targets[0]) == "self._state" and n.lineno > inc[0].lineno]
-            ix = [n for n in g.stmt_nodes() if n.kind == "stmt" and isinstance(n.ast, ast.AugAssign) and norm.text(n.ast.target) == "self._index" and n.lineno > inc[0].lineno]
-            ctx.ob("normal exit: state stored", len(st) == 1 and norm.text(st[0].ast.value) == SV and g.always_preceded_by(r, lambda x: x is st[0]), "state not persisted", fn.loc(r.ast))
-            ctx.ob("normal exit: total index advanced by the chunk length", len(ix) == 1 and norm.text(ix[0].ast.value) in (LV, f"len({CH})"), "total index update changed", fn.loc(r.ast))
-    starts = [v for v in local_assignments(fn, CUR) if v is not None]
-    loop_ok = any(n.kind == "test" and norm.atoms(n.ast, True, res) in ([("lt", ("e", CUR), ("e", LV), True)], [("lt", ("e", CUR), ("e", f"len({CH})"), True)]) for n in g.stmt_nodes())
-    ctx.ob("l = len(chunk), i starts at 0, loop while i < l", any(isinstance(v, ast.Constant) and v.value == 0 for v in starts) and loop_ok, "loop bounds changed", fn.loc())
-    # nothing else persists between calls
+    def real_step(st, octet):
+        return Ta[256 + (st << 4) + Ta[octet]]
+    reps = {"A": 0x41, "L": 0xC3, "C": 0xA9, "X": 0xFF}
+    MID = real_step(ACC, reps["L"])
+    ctx.require(MID not in (ACC, REJ) and real_step(MID, reps["C"]) == ACC and real_step(ACC, reps["A"]) == ACC and real_step(ACC, reps["X"]) == REJ,
+                "representative octets do not span ACCEPT / inside / REJECT in the extracted table (C09.1 reports the table)")
+    body = copy.deepcopy([x for x in fn.node.body if not (isinstance(x, ast.Expr) and isinstance(x.value, ast.Constant))])
+    # substitute the step (and a class-holding local, if any) by the quotient automaton
+    target_line = (roles["step"].lineno, roles["step"].col_offset)
+    alias_lines = {(a_.lineno, a_.col_offset): n_ for n_, a_ in roles["class_aliases"].items()}
+    for x in ast.walk(ast.Module(body=body, type_ignores=[])):
+        if isinstance(x, ast.Assign) and (x.lineno, x.col_offset) == target_line:
+            arg = ast.Name(id=next(iter(roles["class_aliases"])), ctx=ast.Load()) if roles["class_aliases"] else copy.deepcopy(roles["byte_ast"])
+            x.value = ast.fix_missing_locations(ast.copy_location(ast.Call(func=ast.Name(id="__dfa_step", ctx=ast.Load()), args=[ast.Name(id=SV, ctx=ast.Load()), arg], keywords=[]), x))
+        elif isinstance(x, ast.Assign) and (x.lineno, x.col_offset) in alias_lines:
+            x.value = copy.deepcopy(roles["byte_ast"])
+
+    def step(st, tok):
+        return real_step(st, reps[tok]) if st in (ACC, REJ, MID) else REJ
+    probs, cells = [], 0
+    chunk_p = fn.params()[1]
+    try:
+        for n in range(4):
+            for chunk in itertools.product("ALCX", repeat=n):
+                for st0 in (ACC, MID, REJ):
+                    for idx0 in (0, 5):
+                        cells += 1
+
+                        def default(f_, a_, k_=None):
+                            if f_.endswith(".isascii") and not a_:
+                                return all(t_ == "A" for t_ in chunk)
+                            raise AnalysisError(f"call {f_} in validate() is not modelled")
+                        env = {"self": Sym("validator"), "self._state": st0, "self._index": idx0, chunk_p: list(chunk), "UTF8_ACCEPT": ACC, "UTF8_REJECT": REJ, TABLE: Sym("transition-table")}
+                        t = Tiny(env, calls={"__dfa_step": step}, default_call=default)
+                        r = t.run(body)
+                        # specification
+                        st, pos, rej = st0, 0, False
+                        for i, tok in enumerate(chunk):
+                            st = step(st, tok)
+                            if st == REJ:
+                                rej, pos = True, i
+                                break
+                        else:
+                            pos = n
+                        want = (False, False, pos, idx0 + pos) if rej else (True, st == ACC, n, idx0 + n)
+                        got = tuple(r[1]) if r[0] == "return" and isinstance(r[1], (list, tuple)) else (r[0], r[1])
+                        stored = (t.env.get("self._state"), t.env.get("self._index"))
+                        names = {ACC: "ACCEPT", REJ: "REJECT", MID: "inside a code point"}
+                        cell = f"entry state {names[st0]}, offset {idx0}, chunk {''.join(chunk) or '(empty)'}"
+                        if got != want:
+                            probs.append(f"{cell}: returns {got}, RFC 3629 / incremental contract says {want}")
+                        elif stored != (st, want[3]):
+                            probs.append(f"{cell}: stores state {names.get(stored[0], stored[0])}, offset {stored[1]}; expected {names[st]}, {want[3]}")
+        ctx.ob(f"validate(): verdict, code-point boundary, position of the first invalid octet, running offset and stored state on every chunk of the quotient automaton [{cells} cells]",
+               not probs, "; ".join(probs[:2]), fn.loc())
+    except AnalysisError as e:
+        raise AnalysisError(f"[C09.4-index-bookkeeping-python] validate() outside the modelled subset: {e}")
     stores = {norm.text(s_.targets[0]) if isinstance(s_, ast.Assign) else norm.text(s_.target) for s_ in walk_no_defs(fn.node) if isinstance(s_, (ast.Assign, ast.AugAssign)) and
               is_self_attr(s_.targets[0] if isinstance(s_, ast.Assign) else s_.target)}
     ctx.ob("only _state and _index persist between calls", stores == {"self._state", "self._index"}, f"persisted: {sorted(stores)}", fn.loc())
@@ -339,7 +376,11 @@ def rule_c(ctx):
     # the returned quad as a term over the three native calls (names of intermediate locals are irrelevant); the verdict flags are
     # evaluated over the native return codes {-1: invalid, 0: valid on a code point boundary, 1: valid inside a code point}
     from ..core.terms import TermEval, show, eval_bool, subterms
-    te = TermEval(ctx.program, vfn, inline=lambda c, f: None).run()
+    def same_class(call, f):  # private helpers of the wrapper class are part of the mapping
+        if isinstance(call.func, ast.Attribute) and isinstance(call.func.value, ast.Name) and call.func.value.id == "self" and call.func.attr in w.methods:
+            return w.methods[call.func.attr]
+        return None
+    te = TermEval(ctx.program, vfn, inline=same_class).run()
     rets = [o for o in te.outcomes if o.kind == "return"]
     lib = ("attr", ("p", "self"), "lib")
     vld = ("attr", ("p", "self"), "_vld")
@@ -353,6 +394,8 @@ def rule_c(ctx):
         try:
             def flag(t, code):
                 def atom(x):
+                    if x == RES:
+                        return code != 0  # truthiness of the native return code
                     if x[0] == "cmp" and RES in x[2:] and any(y[0] == "c" for y in x[2:]):
                         a_, b_ = [code if y == RES else y[1] for y in x[2:]]
                         return {">=": a_ >= b_, "==": a_ == b_, ">": a_ > b_, "<": a_ < b_, "<=": a_ <= b_, "!=": a_ != b_}.get(x[1])
@@ -439,3 +482,7 @@ def run(ctx):
     rule_python_bookkeeping(ctx)
     rule_c(ctx)
     rule_selection(ctx)
+    ctx.floor("C09.1-python-dfa-equals-rfc3629", 12)
+    ctx.floor("C09.4-index-bookkeeping-python", 3)
+    ctx.floor("C09.2-c-table-and-unrolled-dfa", 90)
+    ctx.floor("C09.5-implementation-selection", 4)
